@@ -186,6 +186,14 @@ def generate(rng, tier):
         cases.append(c)
     return cases
 
+def static_obligations(work, tier):
+    """C03_rounding holds for every monotone rounding that fixes 103-bit numbers and every monotone square root exact on squares: mpmath's
+    operators at dps = 30 are compared with the executable round-to-nearest-even of the exact result (and its square root with the
+    defining inequalities) on generated operands"""
+    import common
+    return common.rounding_obligation(work, ID, (103,), 600)
+
+
 def _clear(c):
     """the request for a cleared accumulator: the literal, or an equal string built at run time (what a caller reading it from a file or a
     command line passes: equal to "clear" but a different object)"""
